@@ -283,6 +283,15 @@ class Layer(cat.Box):
             return Layer(self._left, self._box[::-1], self._right)
         return super().__getitem__(key)
 
+    def __eq__(self, other):
+        if isinstance(other, Layer):
+            return (self._left, self._box, self._right)\
+                == (other._left, other._box, other._right)
+        return super().__eq__(other)
+
+    def __hash__(self):
+        return hash(repr(self))
+
 
 class Diagram(cat.Arrow):
     """
